@@ -69,6 +69,9 @@ pub fn pflags() -> impl Strategy<Value = i32> {
         1 => Just(libc::O_WRONLY | libc::O_CREAT | libc::O_EXCL),
         1 => Just(libc::O_RDWR | libc::O_TMPFILE),
         1 => Just(libc::O_RDONLY | libc::O_EXCL),
+        // the O_TMPFILE bit without O_DIRECTORY: the kernel rejects it, but a trailing
+        // '/' makes the library add O_DIRECTORY, which completes O_TMPFILE
+        1 => Just(libc::O_RDWR | (libc::O_TMPFILE & !libc::O_DIRECTORY)),
     ]
 }
 
@@ -124,6 +127,14 @@ pub struct Report {
 }
 
 const CREATE_FLAGS: i32 = libc::O_CREAT | libc::O_EXCL;
+/// Creation flags in the flag set the call effectively asks for: a trailing '/'
+/// on the sub-path stands for O_DIRECTORY (documented for the procfs calls).
+fn has_create_for(f: i32, path: &[u8]) -> bool {
+    has_create(f | if path.ends_with(b"/") { libc::O_DIRECTORY } else { 0 })
+}
+
+const TMPFILE_BIT: i32 = libc::O_TMPFILE & !libc::O_DIRECTORY;
+
 fn has_create(f: i32) -> bool {
     f & CREATE_FLAGS != 0 || f & libc::O_TMPFILE == libc::O_TMPFILE
 }
@@ -397,7 +408,7 @@ pub fn child(case: &Case, kcfg: Kcfg) -> Report {
                     Err(e) => (format!("missing({})", errno_name(*e)), false, None, None),
                 };
                 // what following the final link yields on the pristine view (oracle for open_follow)
-                let follow_id: Option<Result<Ident, i32>> = if hostile.is_none() && !has_dotdot && comps.len() >= 1 && !has_create(ps.flags) {
+                let follow_id: Option<Result<Ident, i32>> = if hostile.is_none() && !has_dotdot && comps.len() >= 1 && !has_create_for(ps.flags, &path.0) {
                     // "link/" names the link with a directory requirement: the trailing
                     // slashes are not components of their own
                     let mut fc = comps.clone();
@@ -610,12 +621,21 @@ fn judge_one(case: &Case, kcfg: Kcfg, rep: &Report, stats: &mut Stats) -> Result
         }
         let ok = r.out == "Ok";
         // (e) creation flags are refused
-        if has_create(ps.flags) && ps.op != POp::Readlink {
+        if has_create_for(ps.flags, &r.path.0) && ps.op != POp::Readlink {
             if ok {
                 return Err(mk(format!("creation-flags-accepted:{}:{}", opn, if r.entry_is_magic { "magiclink" } else { "plain" }), "O_CREAT/O_EXCL/O_TMPFILE was accepted".into()));
             }
             if r.kind.as_deref() != Some("inval") {
                 return Err(mk(format!("creation-flags-wrong-error:{}:{}:{}", opn, if r.entry_is_magic { "magiclink" } else { "plain" }, r.out), "creation flags must be refused as an invalid argument".into()));
+            }
+            continue;
+        }
+        // the O_TMPFILE bit without O_DIRECTORY is not a flag set any open(2) accepts:
+        // the call must fail; which clause rejects it first is not prescribed (the
+        // resolver-equivalence clause below still applies)
+        if ps.flags & TMPFILE_BIT != 0 && ps.op != POp::Readlink {
+            if ok {
+                return Err(mk(format!("invalid-flags-accepted:{}", opn), "a flag set with the bare O_TMPFILE bit was accepted".into()));
             }
             continue;
         }
@@ -683,7 +703,7 @@ fn comparable_for_equiv(ps: &PStep, r: &StepRep) -> bool {
         return false;
     }
     // (f): non-empty sub-paths without '..'
-    !r.path.0.is_empty() && !r.path.0.split(|&c| c == b'/').any(|c| c == b"..") && !has_create(ps.flags)
+    !r.path.0.is_empty() && !r.path.0.split(|&c| c == b'/').any(|c| c == b"..") && !has_create_for(ps.flags, &r.path.0)
 }
 
 pub fn check_once(case: &Case, stats: &mut Stats) -> Result<(), Fail> {
